@@ -86,8 +86,15 @@ basicConstraints = critical,CA:TRUE
 subjectKeyIdentifier = none
 authorityKeyIdentifier = none
 """)
-    sh(["openssl", "req", "-x509", "-newkey", "ed25519", "-nodes", "-keyout", o("ca4.key"), "-out", o("ca4.pem"), "-days", "3650", "-config", mincnf, "-set_serial", "1"])
-    sh(["openssl", "x509", "-in", o("ca4.pem"), "-outform", "DER", "-out", o("ca4.der")])
+    # ... whose DER encoding moreover ENDS in a newline byte (an Ed25519 signature's last octet is <= 0x10, so a few tries
+    # suffice): a builder that "trims" or "sniffs" the supplied bytes as if they were text corrupts exactly such roots
+    for attempt in range(2000):
+        sh(["openssl", "req", "-x509", "-newkey", "ed25519", "-nodes", "-keyout", o("ca4.key"), "-out", o("ca4.pem"), "-days", "3650", "-config", mincnf, "-set_serial", "1"])
+        sh(["openssl", "x509", "-in", o("ca4.pem"), "-outform", "DER", "-out", o("ca4.der")])
+        if open(o("ca4.der"), "rb").read()[-1] == 0x0A:
+            break
+    else:
+        raise RuntimeError("no Ed25519 root ending in 0x0a after 2000 attempts")
     assert os.path.getsize(o("ca4.der")) < 256, os.path.getsize(o("ca4.der"))
     sh(["openssl", "req", "-newkey", "ed25519", "-nodes", "-keyout", o("valided.key"), "-out", o("valided.csr"), "-subj", "/CN=localhost"])
     ext = o("valided.ext")
